@@ -1,1 +1,2092 @@
-fn main() {}
+//! C14 - results do not depend on the `parallel` feature or on the number of threads.
+//!
+//! The same source is built twice.  The build WITHOUT `--features parallel` is run as
+//! `c14 --serial-digests --tier T`: it computes every (operation, input id) cell with the
+//! serial library code and writes SHA-256 digests of the canonical uncompressed
+//! serialization of each result to /verif/evidence/c14_serial.json.  The build WITH the
+//! feature is the check: for every pool size t it recomputes every cell inside
+//! `ThreadPool::install` (with `current_num_threads() == t` asserted), three times, and
+//! compares (1) with naive single-threaded reference definitions (written here; they use
+//! only single field / group operations, never a batched or parallel library routine),
+//! (2) with the serial build's digest of the same cell, (3) the three repetitions with
+//! each other (uncontrolled-nondeterminism probe).
+//!
+//! A library panic inside a cell is a *result* ("PANIC:<msg>"): the property only demands
+//! that the parallel build behaves like the serial one.
+use algebra_mc::core::*;
+use algebra_mc::toy::gen_fields::{D3889, D65537, DGold};
+use ark_ec::pairing::{MillerLoopOutput, Pairing, PairingOutput};
+use ark_ec::scalar_mul::variable_base::verif_hooks::{msm_bigint_plain, msm_bigint_signed};
+use ark_ec::scalar_mul::BatchMulPreprocessing;
+use ark_ec::{AffineRepr, CurveGroup, PrimeGroup, VariableBaseMSM};
+use ark_ff::{batch_inversion, batch_inversion_and_mul, FftField, Field, PrimeField, Zero};
+use ark_poly::multivariate::{SparsePolynomial as MvSparse, SparseTerm, Term};
+use ark_poly::univariate::{DensePolynomial, SparsePolynomial as USparse};
+use ark_poly::{
+    DenseMVPolynomial, DenseMultilinearExtension, DenseUVPolynomial, EvaluationDomain, Evaluations, GeneralEvaluationDomain,
+    MixedRadixEvaluationDomain, MultilinearExtension, Polynomial, Radix2EvaluationDomain, SparseMultilinearExtension,
+};
+use ark_serialize::{CanonicalDeserialize, CanonicalSerialize, Compress, Valid, Validate};
+use sha2::{Digest, Sha256};
+use std::collections::{BTreeMap, BTreeSet};
+use std::panic::{catch_unwind, AssertUnwindSafe};
+use std::sync::{Arc, Mutex, OnceLock};
+
+type Fr381 = ark_bls12_381::Fr;
+type Bn384s = ark_test_curves::bn384_small_two_adicity::Fq;
+
+const SERIAL_FILE: &str = "/verif/evidence/c14_serial.json";
+
+// ------------------------------------------------------------------------------------------
+// cells
+// ------------------------------------------------------------------------------------------
+type Verify = Box<dyn FnOnce() -> Result<(), String> + Send>;
+struct Out {
+    digest: [u8; 32],
+    panicked: bool,
+    verify: Option<Verify>,
+}
+
+/// What the branch-class labels are computed from (inputs only).
+#[derive(Clone, Debug)]
+enum Meta {
+    Plain,
+    /// radix-2 FFT: domain size, number of input coefficients
+    Radix2 { size: usize, len: usize, is_fft: bool },
+    /// mixed-radix FFT: domain size and its 2-adicity (the `log_n` handed to best_fft)
+    Mixed { size: usize, log_n: u32 },
+    Horner { n: usize },
+    Distribute { n: usize },
+    BatchInv { n: usize },
+    Msm { n: usize, windows: usize },
+    Miller { pairs: usize },
+}
+
+struct Cell {
+    key: String,
+    /// input length (for the t>len class)
+    len: usize,
+    meta: Meta,
+    /// the reference check covers the whole output (false: fixed spot rows only / none)
+    full_ref: bool,
+    run: Box<dyn Fn() -> Out + Send + Sync>,
+    /// digest of a reference-validated output, the verdict, and the t it was validated under
+    verified: OnceLock<([u8; 32], Option<String>, usize)>,
+}
+struct Group {
+    name: String,
+    cells: Vec<Cell>,
+}
+
+fn sha(b: &[u8]) -> [u8; 32] {
+    let mut h = Sha256::new();
+    h.update(b);
+    h.finalize().into()
+}
+fn hex(d: &[u8]) -> String {
+    d.iter().map(|b| format!("{b:02x}")).collect()
+}
+fn ser_c<T: CanonicalSerialize>(t: &T) -> Vec<u8> {
+    let mut b = Vec::new();
+    t.serialize_uncompressed(&mut b).expect("serialize");
+    b
+}
+/// group element: normalise to affine first (projective representatives may differ)
+fn ser_g<G: CurveGroup>(g: &G) -> Vec<u8> {
+    ser_c(&g.into_affine())
+}
+
+fn add<T: Send + 'static>(
+    cells: &mut Vec<Cell>,
+    key: String,
+    len: usize,
+    meta: Meta,
+    full_ref: bool,
+    ser: fn(&T) -> Vec<u8>,
+    run: impl Fn() -> T + Send + Sync + 'static,
+    verify: impl Fn(&T) -> Result<(), String> + Send + Sync + 'static,
+) {
+    let verify = Arc::new(verify);
+    let run = Box::new(move || {
+        let t = run();
+        let digest = sha(&ser(&t));
+        let v = verify.clone();
+        Out { digest, panicked: false, verify: Some(Box::new(move || v(&t))) }
+    });
+    cells.push(Cell { key, len, meta, full_ref, run, verified: OnceLock::new() });
+}
+/// cell without a naive reference (cross-build conformance and repetition only)
+fn add_nover<T: Send + 'static>(cells: &mut Vec<Cell>, key: String, len: usize, meta: Meta, ser: fn(&T) -> Vec<u8>, run: impl Fn() -> T + Send + Sync + 'static) {
+    let run = Box::new(move || {
+        let t = run();
+        Out { digest: sha(&ser(&t)), panicked: false, verify: None }
+    });
+    cells.push(Cell { key, len, meta, full_ref: false, run, verified: OnceLock::new() });
+}
+
+fn panic_text(p: Box<dyn std::any::Any + Send>) -> String {
+    if let Some(s) = p.downcast_ref::<&str>() {
+        s.to_string()
+    } else if let Some(s) = p.downcast_ref::<String>() {
+        s.clone()
+    } else {
+        "<non-string panic>".into()
+    }
+}
+fn panic_out(p: Box<dyn std::any::Any + Send>) -> Out {
+    Out { digest: sha(format!("PANIC:{}", panic_text(p)).as_bytes()), panicked: true, verify: None }
+}
+
+// ------------------------------------------------------------------------------------------
+// grids
+// ------------------------------------------------------------------------------------------
+struct Env {
+    quick: bool,
+    ts: Vec<usize>,
+}
+impl Env {
+    fn base(&self) -> BTreeSet<usize> {
+        let mut s: BTreeSet<usize> = [0, 1, 2, 3, 15, 16, 17, 127, 128, 129, 255, 256, 257, 1023, 1024, 1025, 2047, 2048, 4096, 8192].into_iter().collect();
+        if !self.quick {
+            s.insert(1 << 14);
+        }
+        for t in &self.ts {
+            s.extend([t - 1, *t, t + 1]);
+        }
+        s
+    }
+    /// grid for O(n) operations: base, every size < 64, and c*t-1, c*t, c*t+1 for each work-splitting constant c
+    fn cheap(&self, consts: &[usize], cap: usize) -> Vec<usize> {
+        let mut s = self.base();
+        s.extend(0..64);
+        for c in consts {
+            for t in &self.ts {
+                s.extend([c * t - 1, c * t, c * t + 1]);
+            }
+        }
+        s.into_iter().filter(|n| *n <= cap).collect()
+    }
+    fn fft(&self, cap: usize) -> Vec<usize> {
+        let mut s = self.base();
+        s.extend(0..=65);
+        s.extend([511, 512, 513, 2049, 4095]);
+        if !self.quick {
+            s.insert((1 << 14) - 1);
+        }
+        s.into_iter().filter(|n| *n <= cap).collect()
+    }
+    fn small(&self) -> Vec<usize> {
+        let mut s: BTreeSet<usize> = [0, 1, 2, 3, 15, 16, 17, 127, 128, 129, 1023, 1024, 1025].into_iter().collect();
+        for t in &self.ts {
+            s.extend([t - 1, *t, t + 1]);
+        }
+        s.into_iter().collect()
+    }
+}
+/// number of naive field multiplications we allow for a full reference check of one cell
+fn budget<F: PrimeField>() -> usize {
+    let limbs = (F::MODULUS_BIT_SIZE as usize).div_ceil(64);
+    match limbs {
+        1 => 1 << 21,
+        2..=4 => 1 << 19,
+        _ => 1 << 18,
+    }
+}
+
+// ------------------------------------------------------------------------------------------
+// structured inputs (no RNG)
+// ------------------------------------------------------------------------------------------
+const PATS: [&str; 6] = ["iota", "ones", "unit_mid", "unit_last", "zeros_mixed", "geom"];
+const PATS_BIG: [&str; 4] = ["iota", "unit_mid", "zeros_mixed", "geom"];
+fn pats_for(n: usize) -> &'static [&'static str] {
+    if n <= 64 {
+        &PATS
+    } else {
+        &PATS_BIG
+    }
+}
+fn cgen<F: PrimeField>() -> F {
+    let c = F::from(GENERIC64);
+    if c.is_zero() || c.is_one() {
+        F::from(5u64)
+    } else {
+        c
+    }
+}
+fn pat<F: PrimeField>(p: &str, n: usize) -> Vec<F> {
+    let c = cgen::<F>();
+    match p {
+        "iota" => (0..n).map(|i| F::from(i as u64 + 1)).collect(),
+        "ones" => vec![F::one(); n],
+        "unit_mid" => (0..n).map(|i| if i == n / 2 { F::one() } else { F::zero() }).collect(),
+        "unit_last" => (0..n).map(|i| if i + 1 == n { F::one() } else { F::zero() }).collect(),
+        "zeros_mixed" => (0..n).map(|i| if i % 7 == 0 || i == n / 2 || i + 1 == n { F::zero() } else { F::from(i as u64 + 1) * c }).collect(),
+        "geom" => {
+            let mut x = F::one();
+            (0..n)
+                .map(|_| {
+                    x *= c;
+                    x
+                })
+                .collect()
+        }
+        _ => unreachable!("pattern {p}"),
+    }
+}
+fn trim<F: Zero>(mut v: Vec<F>) -> Vec<F> {
+    while v.last().map_or(false, |x| x.is_zero()) {
+        v.pop();
+    }
+    v
+}
+fn horner<F: Field>(c: &[F], x: &F) -> F {
+    let mut acc = F::zero();
+    for a in c.iter().rev() {
+        acc = acc * x + a;
+    }
+    acc
+}
+/// sum a_i x^i with a running power (deliberately not Horner)
+fn power_sum<F: Field>(c: &[F], x: &F) -> F {
+    let mut acc = F::zero();
+    let mut pw = F::one();
+    for a in c {
+        acc += *a * pw;
+        pw *= x;
+    }
+    acc
+}
+fn dom_points<F: FftField, D: EvaluationDomain<F>>(d: &D) -> Vec<F> {
+    let g = d.group_gen();
+    let mut x = d.coset_offset();
+    (0..d.size())
+        .map(|_| {
+            let o = x;
+            x *= g;
+            o
+        })
+        .collect()
+}
+fn rows(size: usize, full: bool) -> Vec<usize> {
+    if full || size <= 16 {
+        return (0..size).collect();
+    }
+    let s: BTreeSet<usize> = [0, 1, 2, 3, size / 4, size / 2 - 1, size / 2, size / 2 + 1, 3 * size / 4, size - 2, size - 1].into_iter().filter(|i| *i < size).collect();
+    s.into_iter().collect()
+}
+fn first_diff<F: PartialEq + std::fmt::Display>(got: &[F], want: &[F]) -> Result<(), String> {
+    if got.len() != want.len() {
+        return Err(format!("length {} want {}", got.len(), want.len()));
+    }
+    for (i, (g, w)) in got.iter().zip(want).enumerate() {
+        if g != w {
+            return Err(format!("index {i}: got {g} want {w}"));
+        }
+    }
+    Ok(())
+}
+
+// ------------------------------------------------------------------------------------------
+// FFT families
+// ------------------------------------------------------------------------------------------
+fn meta_r2<F: FftField>(d: &Radix2EvaluationDomain<F>, len: usize, is_fft: bool) -> Meta {
+    Meta::Radix2 { size: d.size(), len, is_fft }
+}
+fn meta_mixed<F: FftField>(d: &MixedRadixEvaluationDomain<F>, _len: usize, _is_fft: bool) -> Meta {
+    Meta::Mixed { size: d.size(), log_n: d.log_size_of_group }
+}
+fn meta_general<F: FftField>(d: &GeneralEvaluationDomain<F>, len: usize, is_fft: bool) -> Meta {
+    match d {
+        GeneralEvaluationDomain::Radix2(r) => meta_r2(r, len, is_fft),
+        GeneralEvaluationDomain::MixedRadix(m) => meta_mixed(m, len, is_fft),
+    }
+}
+
+/// one fft cell: `len` coefficients (pattern p) evaluated over `dom`
+fn fft_cell<F: PrimeField, D: EvaluationDomain<F> + Send + Sync + 'static>(cells: &mut Vec<Cell>, key: String, dom: D, len: usize, p: &'static str, meta: Meta) {
+    let size = dom.size();
+    let full = size * len.max(1) <= budget::<F>();
+    add(
+        cells,
+        key,
+        len,
+        meta,
+        full,
+        ser_c::<Vec<F>>,
+        move || dom.fft(&pat::<F>(p, len)),
+        move |out: &Vec<F>| {
+            if out.len() != size {
+                return Err(format!("output length {} want {size}", out.len()));
+            }
+            let inp = pat::<F>(p, len);
+            let pts = dom_points(&dom);
+            for i in rows(size, full) {
+                let want = horner(&inp, &pts[i]);
+                if out[i] != want {
+                    return Err(format!("evaluation {i} (at offset*g^{i}): got {} want {want}", out[i]));
+                }
+            }
+            Ok(())
+        },
+    );
+}
+/// one ifft cell: `len` evaluations (zero-padded to the domain size by the library) interpolated over `dom`
+fn ifft_cell<F: PrimeField, D: EvaluationDomain<F> + Send + Sync + 'static>(cells: &mut Vec<Cell>, key: String, dom: D, len: usize, p: &'static str, meta: Meta) {
+    let size = dom.size();
+    let full = size * size <= budget::<F>();
+    add(
+        cells,
+        key,
+        len,
+        meta,
+        full,
+        ser_c::<Vec<F>>,
+        move || dom.ifft(&pat::<F>(p, len)),
+        move |out: &Vec<F>| {
+            if out.len() != size {
+                return Err(format!("output length {} want {size}", out.len()));
+            }
+            let mut inp = pat::<F>(p, len);
+            inp.resize(size, F::zero());
+            let pts = dom_points(&dom);
+            for i in rows(size, full) {
+                let got = horner(out, &pts[i]);
+                if got != inp[i] {
+                    return Err(format!("interpolant evaluated at domain element {i}: {got}, want the input evaluation {}", inp[i]));
+                }
+            }
+            Ok(())
+        },
+    );
+}
+
+fn fft_family<F: PrimeField, D: EvaluationDomain<F> + Send + Sync + 'static>(
+    cells: &mut Vec<Cell>,
+    fname: &str,
+    kind: &str,
+    sizes: &[usize],
+    sized: &[(usize, usize)],
+    pats_override: Option<&'static [&'static str]>,
+    meta_of: fn(&D, usize, bool) -> Meta,
+) {
+    for &n in sizes {
+        let Some(dom0) = D::new(n) else { continue };
+        for coset in [false, true] {
+            let dom = if coset { dom0.get_coset(F::GENERATOR).unwrap() } else { dom0 };
+            let cs = if coset { "coset_" } else { "" };
+            for &p in pats_override.unwrap_or(pats_for(n)) {
+                fft_cell::<F, D>(cells, format!("{kind}/{fname}/{cs}fft/n={n}/{p}"), dom, n, p, meta_of(&dom, n, true));
+                ifft_cell::<F, D>(cells, format!("{kind}/{fname}/{cs}ifft/n={n}/{p}"), dom, n, p, meta_of(&dom, dom.size(), false));
+            }
+        }
+    }
+    // explicit (domain size, number of coefficients) pairs around the degree-aware threshold len*4 <= size
+    for &(size, len) in sized {
+        let Some(dom0) = D::new(size) else { continue };
+        if dom0.size() != size {
+            continue;
+        }
+        for coset in [false, true] {
+            let dom = if coset { dom0.get_coset(F::GENERATOR).unwrap() } else { dom0 };
+            let cs = if coset { "coset_" } else { "" };
+            for p in ["iota", "geom"] {
+                fft_cell::<F, D>(cells, format!("{kind}/{fname}/{cs}fft_sized/size={size}/len={len}/{p}"), dom, len, p, meta_of(&dom, len, true));
+            }
+        }
+    }
+}
+fn sized_pairs(cap: usize) -> Vec<(usize, usize)> {
+    let mut v = Vec::new();
+    for size in [4usize, 8, 16, 64, 256, 1024, 2048, 4096, 8192, 16384] {
+        if size > cap {
+            continue;
+        }
+        let q = size / 4;
+        let s: BTreeSet<usize> = [q - 1, q, q + 1, size / 8, size / 2, 1].into_iter().filter(|l| *l >= 1 && *l < size).collect();
+        v.extend(s.into_iter().map(|l| (size, l)));
+    }
+    v
+}
+
+fn fft_groups<F: PrimeField>(gs: &mut Vec<Group>, fname: &'static str, env: &Env, cap: usize, huge: bool) {
+    let mut cells = Vec::new();
+    fft_family::<F, Radix2EvaluationDomain<F>>(&mut cells, fname, "radix2", &env.fft(cap), &sized_pairs(cap), None, meta_r2::<F>);
+    if huge {
+        // 2^16: second level of the recursive roots-of-unity table (log_powers.len() = 15 > 2*7)
+        let n = 1 << 16;
+        let dom = Radix2EvaluationDomain::<F>::new(n).unwrap();
+        fft_cell::<F, _>(&mut cells, format!("radix2/{fname}/fft/n={n}/geom"), dom, n, "geom", meta_r2(&dom, n, true));
+        ifft_cell::<F, _>(&mut cells, format!("radix2/{fname}/ifft/n={n}/geom"), dom, n, "geom", meta_r2(&dom, n, false));
+        let cd = dom.get_coset(F::GENERATOR).unwrap();
+        fft_cell::<F, _>(&mut cells, format!("radix2/{fname}/coset_fft/n={n}/geom"), cd, n, "geom", meta_r2(&cd, n, true));
+    }
+    gs.push(Group { name: format!("fft_radix2/{fname}"), cells });
+    // GeneralEvaluationDomain dispatches to the same code: thinner grid
+    let mut cells = Vec::new();
+    let gen_sizes: Vec<usize> = [0usize, 1, 2, 3, 17, 64, 65, 1024, 1025, 4096].into_iter().filter(|n| *n <= cap).collect();
+    fft_family::<F, GeneralEvaluationDomain<F>>(&mut cells, fname, "general", &gen_sizes, &[(64, 16), (64, 17), (4096, 1024), (4096, 1025)], Some(&["geom", "zeros_mixed"]), meta_general::<F>);
+    gs.push(Group { name: format!("fft_general/{fname}"), cells });
+}
+
+fn mixed_groups<F: PrimeField>(gs: &mut Vec<Group>, fname: &'static str, sizes: &[usize]) {
+    let mut cells = Vec::new();
+    fft_family::<F, MixedRadixEvaluationDomain<F>>(&mut cells, fname, "mixed", sizes, &[], None, meta_mixed::<F>);
+    gs.push(Group { name: format!("fft_mixed/{fname}"), cells });
+    let mut cells = Vec::new();
+    let sub: Vec<usize> = sizes.iter().copied().filter(|n| *n > 16 && (*n % 9 == 0 || *n % 8 == 1)).collect();
+    fft_family::<F, GeneralEvaluationDomain<F>>(&mut cells, fname, "general_mixed", &sub, &[], Some(&["geom", "zeros_mixed"]), meta_general::<F>);
+    gs.push(Group { name: format!("fft_general_mixed/{fname}"), cells });
+}
+
+// ------------------------------------------------------------------------------------------
+// O(n) field-vector operations: distribute_powers, Horner, scalar *, batch inversion
+// ------------------------------------------------------------------------------------------
+fn linear_groups<F: PrimeField>(gs: &mut Vec<Group>, fname: &'static str, env: &Env) {
+    let g = F::GENERATOR;
+    let c7 = F::from(7u64);
+    // distribute_powers[_and_mul_by_const]: chunk = max(len / t, 1024)
+    let mut cells = Vec::new();
+    for n in env.cheap(&[1024], usize::MAX) {
+        let ps: &[&str] = if n <= 64 { &PATS } else { &["iota", "zeros_mixed", "geom"] };
+        for &p in ps {
+            add(
+                &mut cells,
+                format!("distribute_powers/{fname}/n={n}/{p}"),
+                n,
+                Meta::Distribute { n },
+                true,
+                ser_c::<Vec<F>>,
+                move || {
+                    let mut v = pat::<F>(p, n);
+                    Radix2EvaluationDomain::<F>::distribute_powers(&mut v, g);
+                    v
+                },
+                move |out: &Vec<F>| {
+                    let mut pw = F::one();
+                    let want: Vec<F> = pat::<F>(p, n)
+                        .into_iter()
+                        .map(|a| {
+                            let o = a * pw;
+                            pw *= g;
+                            o
+                        })
+                        .collect();
+                    first_diff(out, &want)
+                },
+            );
+            add(
+                &mut cells,
+                format!("distribute_powers_and_mul_by_const/{fname}/n={n}/{p}"),
+                n,
+                Meta::Distribute { n },
+                true,
+                ser_c::<Vec<F>>,
+                move || {
+                    let mut v = pat::<F>(p, n);
+                    GeneralEvaluationDomain::<F>::distribute_powers_and_mul_by_const(&mut v, g, c7);
+                    v
+                },
+                move |out: &Vec<F>| {
+                    let mut pw = c7;
+                    let want: Vec<F> = pat::<F>(p, n)
+                        .into_iter()
+                        .map(|a| {
+                            let o = a * pw;
+                            pw *= g;
+                            o
+                        })
+                        .collect();
+                    first_diff(out, &want)
+                },
+            );
+        }
+    }
+    gs.push(Group { name: format!("distribute_powers/{fname}"), cells });
+
+    // DensePolynomial::evaluate: chunk = max(len / t, 16)
+    let mut cells = Vec::new();
+    let points: [(&'static str, F); 5] = [("0", F::zero()), ("1", F::one()), ("-1", -F::one()), ("g", g), ("c", cgen::<F>())];
+    for n in env.cheap(&[16, 17], usize::MAX) {
+        for &p in pats_for(n) {
+            for (xn, x) in points {
+                if n > 64 && (xn == "0" || xn == "1") {
+                    continue;
+                }
+                add(
+                    &mut cells,
+                    format!("poly_evaluate/{fname}/n={n}/{p}/x={xn}"),
+                    n,
+                    Meta::Horner { n },
+                    true,
+                    ser_c::<F>,
+                    move || DensePolynomial::from_coefficients_vec(pat::<F>(p, n)).evaluate(&x),
+                    move |out: &F| {
+                        let want = power_sum(&pat::<F>(p, n), &x);
+                        if *out == want {
+                            Ok(())
+                        } else {
+                            Err(format!("got {out} want {want}"))
+                        }
+                    },
+                );
+            }
+        }
+    }
+    gs.push(Group { name: format!("poly_evaluate/{fname}"), cells });
+
+    // scalar multiplication of dense and sparse univariate polynomials
+    let mut cells = Vec::new();
+    let scalars: [(&'static str, F); 3] = [("0", F::zero()), ("1", F::one()), ("c", cgen::<F>())];
+    for n in env.cheap(&[], 8192) {
+        for &p in pats_for(n) {
+            for (kn, k) in scalars {
+                if n > 64 && kn != "c" {
+                    continue;
+                }
+                add(
+                    &mut cells,
+                    format!("poly_scalar_mul/{fname}/n={n}/{p}/k={kn}"),
+                    n,
+                    Meta::Plain,
+                    true,
+                    ser_c::<Vec<F>>,
+                    move || (&DensePolynomial::from_coefficients_vec(pat::<F>(p, n)) * k).coeffs,
+                    move |out: &Vec<F>| {
+                        let want = if k.is_zero() { vec![] } else { trim(pat::<F>(p, n)).into_iter().map(|a| a * k).collect() };
+                        first_diff(out, &want)
+                    },
+                );
+            }
+        }
+        if n <= 1025 {
+            // sparse polynomial with n terms at exponents 3i+1
+            let k = cgen::<F>();
+            add(
+                &mut cells,
+                format!("sparse_poly_scalar_mul/{fname}/terms={n}"),
+                n,
+                Meta::Plain,
+                true,
+                ser_c::<Vec<(usize, F)>>,
+                move || {
+                    let terms: Vec<(usize, F)> = pat::<F>("geom", n).into_iter().enumerate().map(|(i, a)| (3 * i + 1, a)).collect();
+                    let sp = USparse::from_coefficients_vec(terms);
+                    let r = &sp * k;
+                    r.iter().cloned().collect::<Vec<(usize, F)>>()
+                },
+                move |out: &Vec<(usize, F)>| {
+                    let want: Vec<(usize, F)> = pat::<F>("geom", n).into_iter().enumerate().map(|(i, a)| (3 * i + 1, a * k)).collect();
+                    if *out == want {
+                        Ok(())
+                    } else {
+                        Err(format!("sparse scalar product differs (got {} terms want {})", out.len(), want.len()))
+                    }
+                },
+            );
+        }
+    }
+    gs.push(Group { name: format!("poly_scalar_mul/{fname}"), cells });
+
+    // batch inversion: chunk = max(len / t, 1); zeros are skipped
+    let mut cells = Vec::new();
+    let mut sizes: BTreeSet<usize> = env.cheap(&[1, 2], 8192).into_iter().collect();
+    sizes.extend(env.ts.iter().map(|t| 2 * t + 1));
+    for n in sizes {
+        for &p in pats_for(n) {
+            for with_coeff in [false, true] {
+                let coeff = if with_coeff { cgen::<F>() } else { F::one() };
+                let op = if with_coeff { "batch_inversion_and_mul" } else { "batch_inversion" };
+                add(
+                    &mut cells,
+                    format!("{op}/{fname}/n={n}/{p}"),
+                    n,
+                    Meta::BatchInv { n },
+                    true,
+                    ser_c::<Vec<F>>,
+                    move || {
+                        let mut v = pat::<F>(p, n);
+                        if with_coeff {
+                            batch_inversion_and_mul(&mut v, &coeff);
+                        } else {
+                            batch_inversion(&mut v);
+                        }
+                        v
+                    },
+                    move |out: &Vec<F>| {
+                        let inp = pat::<F>(p, n);
+                        if out.len() != inp.len() {
+                            return Err(format!("length {} want {}", out.len(), inp.len()));
+                        }
+                        for (i, (a, o)) in inp.iter().zip(out).enumerate() {
+                            let ok = if a.is_zero() { o.is_zero() } else { *a * o == coeff };
+                            if !ok {
+                                return Err(format!("index {i}: input {a} output {o}: input*output != coeff {coeff} (zero must stay zero)"));
+                            }
+                        }
+                        Ok(())
+                    },
+                );
+            }
+        }
+    }
+    gs.push(Group { name: format!("batch_inversion/{fname}"), cells });
+}
+
+// ------------------------------------------------------------------------------------------
+// polynomial / domain operations
+// ------------------------------------------------------------------------------------------
+fn poly_groups<F: PrimeField>(gs: &mut Vec<Group>, fname: &'static str, env: &Env, cap: usize) {
+    type D<F> = GeneralEvaluationDomain<F>;
+    let doms = |list: &[usize]| -> Vec<(usize, bool, D<F>)> {
+        let mut v = Vec::new();
+        for &d in list {
+            if d > cap {
+                continue;
+            }
+            let Some(dom) = D::<F>::new(d) else { continue };
+            if dom.size() != d {
+                continue;
+            }
+            v.push((d, false, dom));
+            v.push((d, true, dom.get_coset(F::GENERATOR).unwrap()));
+        }
+        v
+    };
+    // mul_by_vanishing_poly / divide_by_vanishing_poly
+    let mut cells = Vec::new();
+    let mut sizes: BTreeSet<usize> = env.base().into_iter().filter(|n| *n <= 4100).collect();
+    sizes.extend(0..=17);
+    sizes.extend([31, 32, 33, 63, 64, 65]);
+    if !env.quick {
+        sizes.extend(0..64);
+    }
+    for (d, coset, dom) in doms(&[1, 4, 64, 1024]) {
+        let hd = dom.coset_offset_pow_size();
+        let cs = if coset { "coset" } else { "subgroup" };
+        for &n in &sizes {
+            // divide_by_vanishing_poly makes n/d passes over n coefficients
+            if n * n / d > if env.quick { 1 << 20 } else { 1 << 22 } {
+                continue;
+            }
+            for p in ["zeros_mixed", "geom"] {
+                add(
+                    &mut cells,
+                    format!("mul_by_vanishing_poly/{fname}/{cs}/d={d}/n={n}/{p}"),
+                    n,
+                    Meta::Plain,
+                    true,
+                    ser_c::<Vec<F>>,
+                    move || DensePolynomial::from_coefficients_vec(pat::<F>(p, n)).mul_by_vanishing_poly(dom).coeffs,
+                    move |out: &Vec<F>| {
+                        let a = trim(pat::<F>(p, n));
+                        let mut w = vec![F::zero(); d + a.len()];
+                        for (i, x) in a.iter().enumerate() {
+                            w[d + i] += x;
+                            w[i] -= hd * x;
+                        }
+                        first_diff(out, &trim(w))
+                    },
+                );
+                add(
+                    &mut cells,
+                    format!("divide_by_vanishing_poly/{fname}/{cs}/d={d}/n={n}/{p}"),
+                    n,
+                    Meta::Plain,
+                    true,
+                    |t: &(Vec<F>, Vec<F>)| ser_c(t),
+                    move || {
+                        let (q, r) = DensePolynomial::from_coefficients_vec(pat::<F>(p, n)).divide_by_vanishing_poly(dom);
+                        (q.coeffs, r.coeffs)
+                    },
+                    move |(q, r): &(Vec<F>, Vec<F>)| {
+                        let a = trim(pat::<F>(p, n));
+                        if r.len() > d {
+                            return Err(format!("remainder has {} coefficients, domain size {d}", r.len()));
+                        }
+                        if q.last().map_or(false, |x| x.is_zero()) || r.last().map_or(false, |x| x.is_zero()) {
+                            return Err("quotient or remainder not trimmed".into());
+                        }
+                        let mut w = vec![F::zero(); (q.len() + d).max(r.len()).max(a.len())];
+                        for (i, x) in q.iter().enumerate() {
+                            w[d + i] += x;
+                            w[i] -= hd * x;
+                        }
+                        for (i, x) in r.iter().enumerate() {
+                            w[i] += x;
+                        }
+                        first_diff(&trim(w), &a).map_err(|e| format!("q*(x^{d} - h^{d}) + r != p: {e}"))
+                    },
+                );
+            }
+        }
+    }
+    gs.push(Group { name: format!("vanishing_poly/{fname}"), cells });
+
+    // evaluate_over_domain (coefficients folded mod x^size - h^size in parallel, then fft)
+    let mut cells = Vec::new();
+    for (d, coset, dom) in doms(&[1, 2, 8, 64, 256, 1024, 4096]) {
+        let cs = if coset { "coset" } else { "subgroup" };
+        let ns: BTreeSet<usize> = [0, 1, d - 1, d, d + 1, 2 * d - 1, 2 * d, 2 * d + 1, 3 * d + 1, 4 * d + 3].into_iter().collect();
+        for n in ns {
+            for p in ["iota", "geom"] {
+                for by_ref in [false, true] {
+                    let full = d * n.max(1) <= budget::<F>();
+                    let op = if by_ref { "evaluate_over_domain_by_ref" } else { "evaluate_over_domain" };
+                    add(
+                        &mut cells,
+                        format!("{op}/{fname}/{cs}/d={d}/n={n}/{p}"),
+                        n,
+                        meta_general(&dom, n.min(d), true),
+                        full,
+                        ser_c::<Vec<F>>,
+                        move || {
+                            let poly = DensePolynomial::from_coefficients_vec(pat::<F>(p, n));
+                            if by_ref {
+                                poly.evaluate_over_domain_by_ref(dom).evals
+                            } else {
+                                poly.evaluate_over_domain(dom).evals
+                            }
+                        },
+                        move |out: &Vec<F>| {
+                            if out.len() != d {
+                                return Err(format!("{} evaluations, domain size {d}", out.len()));
+                            }
+                            let a = pat::<F>(p, n);
+                            let pts = dom_points(&dom);
+                            for i in rows(d, full) {
+                                let want = horner(&a, &pts[i]);
+                                if out[i] != want {
+                                    return Err(format!("evaluation {i}: got {} want {want}", out[i]));
+                                }
+                            }
+                            Ok(())
+                        },
+                    );
+                }
+            }
+        }
+    }
+    gs.push(Group { name: format!("evaluate_over_domain/{fname}"), cells });
+
+    // Evaluations ops (pointwise, cfg_iter_mut) and mul_polynomials_in_evaluation_domain
+    let mut cells = Vec::new();
+    let k = cgen::<F>();
+    let dsz: Vec<usize> = (0..=14).map(|i| 1usize << i).chain([3, 9, 27, 48, 81, 243, 1296, 3888]).collect();
+    for (d, coset, dom) in doms(&dsz) {
+        if coset {
+            continue;
+        }
+        for (pa, pb) in [("iota", "geom"), ("geom", "zeros_mixed"), ("zeros_mixed", "iota")] {
+            for op in ["add", "sub", "mul", "div", "mul_scalar", "mul_polynomials_in_evaluation_domain"] {
+                add(
+                    &mut cells,
+                    format!("evaluations_{op}/{fname}/d={d}/{pa},{pb}"),
+                    d,
+                    Meta::Plain,
+                    true,
+                    ser_c::<Vec<F>>,
+                    move || {
+                        let a = Evaluations::from_vec_and_domain(pat::<F>(pa, d), dom);
+                        let b = Evaluations::from_vec_and_domain(pat::<F>(pb, d), dom);
+                        match op {
+                            "add" => (&a + &b).evals,
+                            "sub" => (&a - &b).evals,
+                            "mul" => (&a * &b).evals,
+                            "div" => (&a / &b).evals,
+                            "mul_scalar" => (&a * k).evals,
+                            _ => dom.mul_polynomials_in_evaluation_domain(&a.evals, &b.evals),
+                        }
+                    },
+                    move |out: &Vec<F>| {
+                        let a = pat::<F>(pa, d);
+                        let b = pat::<F>(pb, d);
+                        let want: Vec<F> = a
+                            .iter()
+                            .zip(&b)
+                            .map(|(x, y)| match op {
+                                "add" => *x + y,
+                                "sub" => *x - y,
+                                "div" => {
+                                    // documented convention of batch_inversion: zero stays zero
+                                    if y.is_zero() {
+                                        F::zero()
+                                    } else {
+                                        *x * y.inverse().unwrap()
+                                    }
+                                }
+                                "mul_scalar" => *x * k,
+                                _ => *x * y,
+                            })
+                            .collect();
+                        first_diff(out, &want)
+                    },
+                );
+            }
+        }
+    }
+    gs.push(Group { name: format!("evaluations_ops/{fname}"), cells });
+
+    // polynomial * polynomial (fft, pointwise product, ifft)
+    let mut cells = Vec::new();
+    let mut pairs: Vec<(usize, usize)> = vec![(0, 5), (1, 1), (1, 7), (2, 2), (3, 3), (8, 8), (9, 8), (16, 17), (33, 32), (64, 64), (65, 64), (128, 128), (129, 128), (256, 256), (512, 512), (513, 512), (1024, 1024), (1025, 1024), (2048, 3)];
+    if !env.quick {
+        pairs.extend([(2048, 2048), (2049, 2048), (4096, 4096)]);
+    }
+    for (n1, n2) in pairs {
+        let dn = (n1 + n2).saturating_sub(1);
+        if dn > cap || D::<F>::new(dn).is_none() {
+            continue;
+        }
+        for (pa, pb) in [("iota", "geom"), ("geom", "zeros_mixed")] {
+            let full = n1 * n2 <= budget::<F>();
+            add(
+                &mut cells,
+                format!("poly_mul/{fname}/n1={n1}/n2={n2}/{pa},{pb}"),
+                n1.min(n2),
+                D::<F>::new(dn).map(|dm| meta_general(&dm, n1, true)).unwrap_or(Meta::Plain),
+                full,
+                ser_c::<Vec<F>>,
+                move || (&DensePolynomial::from_coefficients_vec(pat::<F>(pa, n1)) * &DensePolynomial::from_coefficients_vec(pat::<F>(pb, n2))).coeffs,
+                move |out: &Vec<F>| {
+                    let a = trim(pat::<F>(pa, n1));
+                    let b = trim(pat::<F>(pb, n2));
+                    let want_len = if a.is_empty() || b.is_empty() { 0 } else { a.len() + b.len() - 1 };
+                    if out.len() != want_len {
+                        return Err(format!("product has {} coefficients, want {want_len}", out.len()));
+                    }
+                    for kx in rows(want_len, full || want_len < 16) {
+                        let mut acc = F::zero();
+                        for i in 0..a.len() {
+                            if kx >= i && kx - i < b.len() {
+                                acc += a[i] * b[kx - i];
+                            }
+                        }
+                        if out[kx] != acc {
+                            return Err(format!("coefficient {kx}: got {} want {acc}", out[kx]));
+                        }
+                    }
+                    Ok(())
+                },
+            );
+        }
+    }
+    gs.push(Group { name: format!("poly_mul/{fname}"), cells });
+}
+
+// ------------------------------------------------------------------------------------------
+// multilinear extensions and sparse multivariate polynomials
+// ------------------------------------------------------------------------------------------
+/// eq(b, x) = prod_i (b_i ? x_i : 1 - x_i), bit 0 of b = variable 0 (documented little-endian convention)
+fn m_eq<F: Field>(b: usize, x: &[F]) -> F {
+    let mut w = F::one();
+    for (i, xi) in x.iter().enumerate() {
+        w *= if (b >> i) & 1 == 1 { *xi } else { F::one() - xi };
+    }
+    w
+}
+fn m_eval<F: Field>(t: &[F], x: &[F]) -> F {
+    let mut acc = F::zero();
+    for (b, v) in t.iter().enumerate() {
+        if !v.is_zero() {
+            acc += *v * m_eq(b, x);
+        }
+    }
+    acc
+}
+fn m_fix<F: Field>(t: &[F], r: &[F]) -> Vec<F> {
+    let d = r.len();
+    (0..t.len() >> d)
+        .map(|c| {
+            let mut acc = F::zero();
+            for low in 0..(1usize << d) {
+                acc += t[(c << d) | low] * m_eq(low, r);
+            }
+            acc
+        })
+        .collect()
+}
+fn m_swap_idx(i: usize, a: usize, b: usize, k: usize) -> usize {
+    let mut j = i;
+    for o in 0..k {
+        let ba = (i >> (a + o)) & 1;
+        let bb = (i >> (b + o)) & 1;
+        j &= !(1usize << (a + o));
+        j &= !(1usize << (b + o));
+        j |= bb << (a + o);
+        j |= ba << (b + o);
+    }
+    j
+}
+fn mpoint<F: PrimeField>(nv: usize) -> Vec<F> {
+    let c = cgen::<F>();
+    (0..nv).map(|i| F::from(i as u64 + 2) * c).collect()
+}
+/// sparse table: the pattern restricted to indices i with i % 3 == 1 (dense: everything)
+fn sparse_entries<F: PrimeField>(p: &str, nv: usize, few: bool) -> Vec<(usize, F)> {
+    let n = 1usize << nv;
+    let t = pat::<F>(p, n);
+    if few {
+        let idx: BTreeSet<usize> = [0, n / 2, n - 1].into_iter().collect();
+        idx.into_iter().map(|i| (i, t[i] + F::one())).collect()
+    } else {
+        (0..n).filter(|i| i % 3 == 1 || n == 1).map(|i| (i, t[i] + F::one())).collect()
+    }
+}
+fn table_of<F: PrimeField>(nv: usize, e: &[(usize, F)]) -> Vec<F> {
+    let mut t = vec![F::zero(); 1 << nv];
+    for (i, v) in e {
+        t[*i] = *v;
+    }
+    t
+}
+
+fn mle_groups<F: PrimeField>(gs: &mut Vec<Group>, fname: &'static str, env: &Env) {
+    let max_nv = if env.quick { 11 } else { 13 };
+    let f = cgen::<F>();
+    let mut cells = Vec::new();
+    for nv in 0..=max_nv {
+        let n = 1usize << nv;
+        for (pa, pb) in [("iota", "geom"), ("zeros_mixed", "iota")] {
+            for op in ["add", "add_scaled", "neg", "evaluate", "fix_variables"] {
+                let kfix = nv.min(3);
+                add(
+                    &mut cells,
+                    format!("mle_dense/{fname}/{op}/nv={nv}/{pa},{pb}"),
+                    n,
+                    Meta::Plain,
+                    true,
+                    ser_c::<Vec<F>>,
+                    move || {
+                        let a = DenseMultilinearExtension::from_evaluations_vec(nv, pat::<F>(pa, n));
+                        let b = DenseMultilinearExtension::from_evaluations_vec(nv, pat::<F>(pb, n));
+                        match op {
+                            "add" => (&a + &b).evaluations,
+                            "add_scaled" => {
+                                let mut x = a;
+                                x += (f, &b);
+                                x.evaluations
+                            }
+                            "neg" => (-a).evaluations,
+                            "evaluate" => vec![a.evaluate(&mpoint::<F>(nv))],
+                            _ => a.fix_variables(&mpoint::<F>(nv)[..kfix]).evaluations,
+                        }
+                    },
+                    move |out: &Vec<F>| {
+                        let a = pat::<F>(pa, n);
+                        let b = pat::<F>(pb, n);
+                        let want: Vec<F> = match op {
+                            "add" => a.iter().zip(&b).map(|(x, y)| *x + y).collect(),
+                            "add_scaled" => a.iter().zip(&b).map(|(x, y)| *x + f * y).collect(),
+                            "neg" => a.iter().map(|x| -*x).collect(),
+                            "evaluate" => vec![m_eval(&a, &mpoint::<F>(nv))],
+                            _ => m_fix(&a, &mpoint::<F>(nv)[..kfix]),
+                        };
+                        first_diff(out, &want)
+                    },
+                );
+            }
+        }
+        for few in [false, true] {
+            for op in ["relabel", "add", "add_scaled", "neg", "evaluate", "fix_variables"] {
+                let kfix = nv.min(3);
+                let kk = nv / 2;
+                add(
+                    &mut cells,
+                    format!("mle_sparse/{fname}/{op}/nv={nv}/{}", if few { "few" } else { "third" }),
+                    if few { 3.min(n) } else { n / 3 },
+                    Meta::Plain,
+                    true,
+                    ser_c::<Vec<F>>,
+                    move || {
+                        let a = SparseMultilinearExtension::from_evaluations(nv, &sparse_entries::<F>("geom", nv, few));
+                        let b = SparseMultilinearExtension::from_evaluations(nv, &sparse_entries::<F>("iota", nv, !few));
+                        match op {
+                            "relabel" => a.relabel(0, kk, kk).to_evaluations(),
+                            "add" => (&a + &b).to_evaluations(),
+                            "add_scaled" => {
+                                let mut x = a;
+                                x += (f, &b);
+                                x.to_evaluations()
+                            }
+                            "neg" => (-a).to_evaluations(),
+                            "evaluate" => vec![a.evaluate(&mpoint::<F>(nv))],
+                            _ => a.fix_variables(&mpoint::<F>(nv)[..kfix]).to_evaluations(),
+                        }
+                    },
+                    move |out: &Vec<F>| {
+                        let a = table_of(nv, &sparse_entries::<F>("geom", nv, few));
+                        let b = table_of(nv, &sparse_entries::<F>("iota", nv, !few));
+                        let want: Vec<F> = match op {
+                            "relabel" => (0..n).map(|i| a[m_swap_idx(i, 0, kk, kk)]).collect(),
+                            "add" => a.iter().zip(&b).map(|(x, y)| *x + y).collect(),
+                            "add_scaled" => a.iter().zip(&b).map(|(x, y)| *x + f * y).collect(),
+                            "neg" => a.iter().map(|x| -*x).collect(),
+                            "evaluate" => vec![m_eval(&a, &mpoint::<F>(nv))],
+                            _ => m_fix(&a, &mpoint::<F>(nv)[..kfix]),
+                        };
+                        first_diff(out, &want)
+                    },
+                );
+            }
+        }
+    }
+    gs.push(Group { name: format!("multilinear/{fname}"), cells });
+
+    // sparse multivariate polynomial: evaluate sums the terms in parallel, SparseTerm::evaluate multiplies the
+    // variable powers in parallel
+    let mut cells = Vec::new();
+    let mv_terms = |m: usize| -> Vec<(F, Vec<(usize, usize)>)> {
+        let c = cgen::<F>();
+        (0..m).map(|j| (F::from(j as u64 + 1) * c, vec![(j % 6, 1 + j % 3), ((j / 6) % 6, 1 + (j / 36) % 2), ((j / 216) % 6, j % 2)])).collect()
+    };
+    let naive_mv = |terms: &[(F, Vec<(usize, usize)>)], x: &[F]| -> F {
+        let mut acc = F::zero();
+        for (c, t) in terms {
+            let mut m = *c;
+            for (v, e) in t {
+                for _ in 0..*e {
+                    m *= x[*v];
+                }
+            }
+            acc += m;
+        }
+        acc
+    };
+    for m in env.small() {
+        add(
+            &mut cells,
+            format!("mvpoly_evaluate/{fname}/terms={m}"),
+            m,
+            Meta::Plain,
+            true,
+            ser_c::<F>,
+            move || {
+                let terms = mv_terms(m).into_iter().map(|(c, t)| (c, SparseTerm::new(t))).collect();
+                MvSparse::<F, SparseTerm>::from_coefficients_vec(6, terms).evaluate(&mpoint::<F>(6))
+            },
+            move |out: &F| {
+                let want = naive_mv(&mv_terms(m), &mpoint::<F>(6));
+                if *out == want {
+                    Ok(())
+                } else {
+                    Err(format!("got {out} want {want}"))
+                }
+            },
+        );
+        if m >= 1 && m <= 257 {
+            // one term in m distinct variables plus a constant
+            let one_term = move || -> Vec<(F, Vec<(usize, usize)>)> { vec![(cgen::<F>(), (0..m).map(|i| (i, 1 + i % 3)).collect()), (F::from(3u64), vec![])] };
+            add(
+                &mut cells,
+                format!("mvpoly_term_evaluate/{fname}/vars={m}"),
+                m,
+                Meta::Plain,
+                true,
+                ser_c::<F>,
+                move || {
+                    let terms = one_term().into_iter().map(|(c, t)| (c, SparseTerm::new(t))).collect();
+                    MvSparse::<F, SparseTerm>::from_coefficients_vec(m, terms).evaluate(&mpoint::<F>(m))
+                },
+                move |out: &F| {
+                    let want = naive_mv(&one_term(), &mpoint::<F>(m));
+                    if *out == want {
+                        Ok(())
+                    } else {
+                        Err(format!("got {out} want {want}"))
+                    }
+                },
+            );
+        }
+    }
+    gs.push(Group { name: format!("multivariate/{fname}"), cells });
+}
+
+// ------------------------------------------------------------------------------------------
+// elliptic-curve operations
+// ------------------------------------------------------------------------------------------
+/// textbook double-and-add with single group operations (the reference for every k*P)
+fn smul<G: CurveGroup>(p: &G, k: &[u64]) -> G {
+    let mut acc = G::zero();
+    for b in ark_ff::BitIteratorBE::without_leading_zeros(k) {
+        acc.double_in_place();
+        if b {
+            acc += p;
+        }
+    }
+    acc
+}
+struct Bases<G: CurveGroup> {
+    /// (i+1)*G accumulated by repeated addition (non-trivial Z)
+    proj: Vec<G>,
+    aff: Vec<G::Affine>,
+}
+fn make_bases<G: CurveGroup>(n: usize) -> Arc<Bases<G>> {
+    let g = G::generator();
+    let mut acc = G::zero();
+    let mut proj = Vec::with_capacity(n);
+    for _ in 0..n {
+        acc += &g;
+        proj.push(acc);
+    }
+    let aff = proj.iter().map(|p| p.into_affine()).collect();
+    Arc::new(Bases { proj, aff })
+}
+const SPATS: [&str; 5] = ["iota_c", "zeros_mixed", "ones", "max", "small"];
+fn spat<S: PrimeField>(p: &str, n: usize) -> Vec<S> {
+    let c5 = S::from(GENERIC64).pow([5u64]);
+    (0..n)
+        .map(|i| match p {
+            "iota_c" => S::from(i as u64 + 1) * c5,
+            "zeros_mixed" => {
+                if i % 5 == 0 || i == n / 2 {
+                    S::zero()
+                } else {
+                    S::from(i as u64 + 1) * c5
+                }
+            }
+            "ones" => S::one(),
+            "max" => -S::one(),
+            "small" => S::from(i as u64 + 1),
+            _ => unreachable!(),
+        })
+        .collect()
+}
+/// base i = b_i * G with b_i = i+1, or the identity (b_i = 0) at i % 4 == 1 when `ident`
+fn base_coeff(i: usize, ident: bool) -> u64 {
+    if ident && i % 4 == 1 {
+        0
+    } else {
+        i as u64 + 1
+    }
+}
+fn base_list<G: CurveGroup>(b: &Bases<G>, n: usize, ident: bool) -> Vec<G::Affine> {
+    (0..n).map(|i| if base_coeff(i, ident) == 0 { G::Affine::zero() } else { b.aff[i] }).collect()
+}
+fn msm_windows(n: usize, bits: usize) -> usize {
+    let c = if n < 32 { 3 } else { (ark_std::log2(n) * 69 / 100) as usize + 2 };
+    bits.div_ceil(c)
+}
+fn same_point<G: CurveGroup>(got: &G, want: &G) -> Result<(), String> {
+    if got.into_affine() == want.into_affine() {
+        Ok(())
+    } else {
+        Err(format!("got {} want {}", got.into_affine(), want.into_affine()))
+    }
+}
+
+fn msm_groups<G: CurveGroup + VariableBaseMSM<MulBase = <G as CurveGroup>::Affine>>(gs: &mut Vec<Group>, gname: &'static str, env: &Env, reduced: bool) {
+    let bases = make_bases::<G>(1030);
+    let bits = G::ScalarField::MODULUS_BIT_SIZE as usize;
+    let mut sizes: BTreeSet<usize> = [0, 1, 2, 3, 4, 7, 8, 9, 15, 16, 17, 31, 32, 33, 63, 64, 65, 127, 128, 129, 255, 256, 257, 511, 512, 513, 1023, 1024, 1025].into_iter().collect();
+    for t in &env.ts {
+        sizes.extend([t - 1, *t, t + 1]);
+    }
+    if !env.quick && !reduced {
+        sizes.extend(0..64);
+    }
+    if env.quick {
+        sizes.retain(|n| ![511, 512, 513].contains(n));
+    }
+    if reduced {
+        sizes.retain(|n| *n <= 33 || [128, 129, 1024, 1025].contains(n));
+    }
+    let mut cells = Vec::new();
+    for n in sizes {
+        let big = n >= 255;
+        let pats: &[&str] = if big || (env.quick && n > 33) || reduced {
+            &["iota_c", "zeros_mixed"]
+        } else if env.quick && n > 9 {
+            &["iota_c", "zeros_mixed", "ones"]
+        } else {
+            &SPATS
+        };
+        // msm -> msm_unchecked -> msm_bigint -> signed-digit kernel: the wrappers add only the parallel into_bigint map
+        let variants: &[&str] = if big || reduced || (env.quick && n > 9 && ![32, 33].contains(&n)) { &["msm", "hook_plain"] } else { &["msm", "msm_unchecked", "msm_bigint", "hook_plain", "hook_signed"] };
+        for &p in pats {
+            for ident in [false, true] {
+                if ident && p != "zeros_mixed" {
+                    continue;
+                }
+                for &v in variants {
+                    let b = bases.clone();
+                    let want_of = move || -> G {
+                        let sc = spat::<G::ScalarField>(p, n);
+                        let mut k = G::ScalarField::zero();
+                        for (i, s) in sc.iter().enumerate() {
+                            k += *s * G::ScalarField::from(base_coeff(i, ident));
+                        }
+                        smul(&G::generator(), k.into_bigint().as_ref())
+                    };
+                    let key = format!("msm/{gname}/{v}/n={n}/{p}{}", if ident { "/bases_with_identity" } else { "" });
+                    let meta = Meta::Msm { n, windows: msm_windows(n, bits) };
+                    if v == "msm" {
+                        add(
+                            &mut cells,
+                            key,
+                            n,
+                            meta,
+                            true,
+                            |r: &Result<G, usize>| match r {
+                                Ok(g) => ser_g(g),
+                                Err(e) => format!("ERR:{e}").into_bytes(),
+                            },
+                            move || G::msm(&base_list(&b, n, ident), &spat::<G::ScalarField>(p, n)),
+                            move |out: &Result<G, usize>| match out {
+                                Ok(g) => same_point(g, &want_of()),
+                                Err(e) => Err(format!("msm returned Err({e}) for equal lengths")),
+                            },
+                        );
+                    } else {
+                        add(
+                            &mut cells,
+                            key,
+                            n,
+                            meta,
+                            true,
+                            ser_g::<G>,
+                            move || {
+                                let bl = base_list(&b, n, ident);
+                                let sc = spat::<G::ScalarField>(p, n);
+                                let bi = || sc.iter().map(|s| s.into_bigint()).collect::<Vec<_>>();
+                                match v {
+                                    "msm_unchecked" => G::msm_unchecked(&bl, &sc),
+                                    "msm_bigint" => G::msm_bigint(&bl, &bi()),
+                                    "hook_plain" => msm_bigint_plain::<G>(&bl, &bi()),
+                                    _ => msm_bigint_signed::<G>(&bl, &bi()),
+                                }
+                            },
+                            move |out: &G| same_point(out, &want_of()),
+                        );
+                    }
+                }
+            }
+        }
+        // unequal lengths: msm reports the shorter length, msm_unchecked chops
+        if n <= 33 {
+            let b = bases.clone();
+            add(
+                &mut cells,
+                format!("msm/{gname}/msm_unequal/n={n}"),
+                n,
+                Meta::Msm { n, windows: msm_windows(n, bits) },
+                true,
+                |r: &Result<G, usize>| match r {
+                    Ok(g) => ser_g(g),
+                    Err(e) => format!("ERR:{e}").into_bytes(),
+                },
+                move || G::msm(&base_list(&b, n, false), &spat::<G::ScalarField>("iota_c", n + 1)),
+                move |out: &Result<G, usize>| if *out == Err(n) { Ok(()) } else { Err(format!("want Err({n})")) },
+            );
+            let b = bases.clone();
+            add(
+                &mut cells,
+                format!("msm/{gname}/msm_unchecked_unequal/n={n}"),
+                n,
+                Meta::Msm { n, windows: msm_windows(n, bits) },
+                true,
+                ser_g::<G>,
+                move || G::msm_unchecked(&base_list(&b, n + 2, false), &spat::<G::ScalarField>("iota_c", n)),
+                move |out: &G| {
+                    let mut k = G::ScalarField::zero();
+                    for (i, s) in spat::<G::ScalarField>("iota_c", n).iter().enumerate() {
+                        k += *s * G::ScalarField::from(i as u64 + 1);
+                    }
+                    same_point(out, &smul(&G::generator(), k.into_bigint().as_ref()))
+                },
+            );
+        }
+    }
+    gs.push(Group { name: format!("msm/{gname}"), cells });
+
+    // batch_mul / BatchMulPreprocessing
+    let mut cells = Vec::new();
+    let mut sizes: BTreeSet<usize> = [0, 1, 2, 3, 15, 16, 17, 31, 32, 33, 127, 128, 129, 1023, 1024, 1025].into_iter().collect();
+    for t in &env.ts {
+        sizes.extend([t - 1, *t, t + 1]);
+    }
+    if reduced {
+        sizes.retain(|n| *n <= 33 || *n == 129);
+    }
+    for n in sizes {
+        for p in ["iota_c", "zeros_mixed"] {
+            for v in ["batch_mul", "preprocessing_batch_mul", "table_for_other_len", "scalar_size_64"] {
+                if (n > 129 || reduced) && v != "batch_mul" && v != "table_for_other_len" {
+                    continue;
+                }
+                if env.quick && ((n > 129 && (v != "batch_mul" || p != "iota_c" || n == 1023)) || (n > 33 && v != "batch_mul" && v != "preprocessing_batch_mul")) {
+                    continue;
+                }
+                let b = bases.clone();
+                // base = 5*G in a non-normalised representation
+                let scal = move || -> Vec<G::ScalarField> { if v == "scalar_size_64" { spat::<G::ScalarField>("small", n) } else { spat::<G::ScalarField>(p, n) } };
+                let full = n <= 129;
+                add(
+                    &mut cells,
+                    format!("batch_mul/{gname}/{v}/n={n}/{p}"),
+                    n,
+                    Meta::BatchInv { n },
+                    full,
+                    ser_c::<Vec<G::Affine>>,
+                    move || {
+                        let base = b.proj[4];
+                        let sc = scal();
+                        match v {
+                            "batch_mul" => base.batch_mul(&sc),
+                            "preprocessing_batch_mul" => BatchMulPreprocessing::new(base, n).batch_mul(&sc),
+                            "table_for_other_len" => G::batch_mul_with_preprocessing(&BatchMulPreprocessing::new(base, 2 * n + 40), &sc),
+                            _ => BatchMulPreprocessing::with_num_scalars_and_scalar_size(base, n, 64).batch_mul(&sc),
+                        }
+                    },
+                    move |out: &Vec<G::Affine>| {
+                        let sc = scal();
+                        if out.len() != n {
+                            return Err(format!("{} results for {n} scalars", out.len()));
+                        }
+                        let base = smul(&G::generator(), &[5u64]);
+                        let idx: Vec<usize> = if full { (0..n).collect() } else { rows(n, false).into_iter().chain((0..n).step_by(64)).collect() };
+                        for i in idx {
+                            let want = smul(&base, sc[i].into_bigint().as_ref()).into_affine();
+                            if out[i] != want {
+                                return Err(format!("result {i}: got {} want {want}", out[i]));
+                            }
+                        }
+                        Ok(())
+                    },
+                );
+            }
+        }
+    }
+    gs.push(Group { name: format!("batch_mul/{gname}"), cells });
+}
+
+/// normalize_batch: (projective point) -> affine; the reference divides by Z explicitly
+fn normalize_groups<G: CurveGroup>(gs: &mut Vec<Group>, gname: &'static str, env: &Env, reference: fn(&G) -> G::Affine) {
+    let bases = make_bases::<G>(1030);
+    let mut cells = Vec::new();
+    let mut sizes: BTreeSet<usize> = env.cheap(&[1, 2], 1025).into_iter().collect();
+    sizes.extend(env.ts.iter().map(|t| 2 * t + 1));
+    for n in sizes {
+        for zeros in ["none", "some", "all"] {
+            if zeros == "all" && n > 64 {
+                continue;
+            }
+            let b = bases.clone();
+            let input = move || -> Vec<G> { (0..n).map(|i| if zeros == "all" || (zeros == "some" && (i % 7 == 3 || i + 1 == n)) { G::zero() } else { b.proj[i] }).collect() };
+            let input2 = input.clone();
+            add(
+                &mut cells,
+                format!("normalize_batch/{gname}/n={n}/identities={zeros}"),
+                n,
+                Meta::BatchInv { n },
+                true,
+                ser_c::<Vec<G::Affine>>,
+                move || G::normalize_batch(&input()),
+                move |out: &Vec<G::Affine>| {
+                    let inp = input2();
+                    if out.len() != n {
+                        return Err(format!("{} results for {n} points", out.len()));
+                    }
+                    for i in 0..n {
+                        let want = reference(&inp[i]);
+                        if out[i] != want {
+                            return Err(format!("point {i}: got {} want {want}", out[i]));
+                        }
+                    }
+                    Ok(())
+                },
+            );
+        }
+    }
+    gs.push(Group { name: format!("normalize_batch/{gname}"), cells });
+}
+fn sw_affine_ref<P: ark_ec::short_weierstrass::SWCurveConfig>(p: &ark_ec::short_weierstrass::Projective<P>) -> ark_ec::short_weierstrass::Affine<P> {
+    // Jacobian coordinates: (X/Z^2, Y/Z^3); Z = 0 is the identity
+    match p.z.inverse() {
+        None => ark_ec::short_weierstrass::Affine::identity(),
+        Some(zi) => ark_ec::short_weierstrass::Affine::new_unchecked(p.x * zi * zi, p.y * zi * zi * zi),
+    }
+}
+fn te_affine_ref<P: ark_ec::twisted_edwards::TECurveConfig>(p: &ark_ec::twisted_edwards::Projective<P>) -> ark_ec::twisted_edwards::Affine<P> {
+    // extended coordinates: (X/Z, Y/Z)
+    let zi = p.z.inverse().expect("Z != 0 on a twisted Edwards curve");
+    ark_ec::twisted_edwards::Affine::new_unchecked(p.x * zi, p.y * zi)
+}
+
+// ------------------------------------------------------------------------------------------
+// multi-pairings
+// ------------------------------------------------------------------------------------------
+/// pair i = ((i+1)*G1, (2i+3)*G2); with `ident`, pair 1 has the identity of G1 and pair 2 the identity of G2
+fn pairing_inputs<E: Pairing>(k: usize, ident: bool) -> (Vec<E::G1Affine>, Vec<E::G2Affine>, u64) {
+    let mut a = Vec::new();
+    let mut b = Vec::new();
+    let mut e = 0u64;
+    for i in 0..k {
+        let (x, y) = (i as u64 + 1, 2 * i as u64 + 3);
+        let p = if ident && i == 1 { E::G1::zero() } else { smul(&E::G1::generator(), &[x]) };
+        let q = if ident && i == 2 { E::G2::zero() } else { smul(&E::G2::generator(), &[y]) };
+        if !(ident && (i == 1 || i == 2)) {
+            e += x * y;
+        }
+        a.push(p.into_affine());
+        b.push(q.into_affine());
+    }
+    (a, b, e)
+}
+fn pairing_groups<E: Pairing>(gs: &mut Vec<Group>, ename: &'static str, ks: &[usize], with_identity: bool, verify_max_pairs: usize) {
+    let mut cells = Vec::new();
+    for &k in ks {
+        for ident in [false, true] {
+            if ident && (!with_identity || k < 2) {
+                continue;
+            }
+            let eff = if ident { k - k.min(3).saturating_sub(1) } else { k };
+            let tag = if ident { "with_identity" } else { "plain" };
+            let meta = Meta::Miller { pairs: eff };
+            let ser_t: fn(&E::TargetField) -> Vec<u8> = ser_c::<E::TargetField>;
+            let mp = move || {
+                let (a, b, _) = pairing_inputs::<E>(k, ident);
+                E::multi_pairing(a, b).0
+            };
+            if eff <= verify_max_pairs {
+                add(&mut cells, format!("multi_pairing/{ename}/pairs={k}/{tag}"), k, meta.clone(), true, ser_t, mp, move |out: &E::TargetField| {
+                    let (_, _, e) = pairing_inputs::<E>(k, ident);
+                    // bilinearity: prod e(a_i G1, b_i G2) = e(G1, G2)^(sum a_i b_i)
+                    let base: PairingOutput<E> = E::pairing(E::G1::generator().into_affine(), E::G2::generator().into_affine());
+                    let want = base.0.pow([e]);
+                    if *out == want {
+                        Ok(())
+                    } else {
+                        Err(format!("multi_pairing != e(G1,G2)^{e}"))
+                    }
+                });
+            } else {
+                add_nover(&mut cells, format!("multi_pairing/{ename}/pairs={k}/{tag}"), k, meta.clone(), ser_t, mp);
+            }
+            // the Miller-loop value itself must also be independent of the schedule (product in a commutative field)
+            add_nover(&mut cells, format!("multi_miller_loop/{ename}/pairs={k}/{tag}"), k, meta, ser_t, move || {
+                let (a, b, _) = pairing_inputs::<E>(k, ident);
+                let m: MillerLoopOutput<E> = E::multi_miller_loop(a, b);
+                m.0
+            });
+        }
+    }
+    gs.push(Group { name: format!("multi_pairing/{ename}"), cells });
+}
+
+// ------------------------------------------------------------------------------------------
+// Valid::batch_check / checked deserialization of vectors of points
+// ------------------------------------------------------------------------------------------
+type G1A = ark_bls12_381::G1Affine;
+type G1P = ark_bls12_381::G1Projective;
+/// first curve point (x = 1, 2, ...) that is on the curve but outside the prime-order subgroup: r*P != O by
+/// textbook double-and-add
+fn outside_subgroup_point() -> G1A {
+    let r = <Fr381 as PrimeField>::MODULUS;
+    for x in 1u64..200 {
+        if let Some(p) = G1A::get_point_from_x_unchecked(ark_bls12_381::Fq::from(x), false) {
+            if p.is_on_curve() && !smul(&G1P::from(p), r.as_ref()).is_zero() {
+                return p;
+            }
+        }
+    }
+    panic!("no point outside the subgroup found");
+}
+fn batch_check_groups(gs: &mut Vec<Group>, env: &Env) {
+    let bases = make_bases::<G1P>(70);
+    let bad = outside_subgroup_point();
+    let mut ns: Vec<usize> = vec![0, 1, 2, 3, 4, 5, 7, 8, 9, 15, 16, 17, 31, 32, 33];
+    if !env.quick {
+        ns.extend([63, 64, 65]);
+    }
+    let mut cells = Vec::new();
+    for n in ns {
+        // bad position: none (= n) or every position
+        for pos in 0..=n {
+            let has_bad = pos < n;
+            let modes: &[&str] = if n <= 9 { &["vec_uncompressed", "vec_compressed", "direct", "vec_projective"] } else if n <= 17 { &["vec_uncompressed", "direct", "vec_projective"] } else { &["vec_uncompressed", "direct"] };
+            for &mode in modes {
+                let b = bases.clone();
+                let list = move || -> Vec<G1A> { (0..n).map(|i| if i == pos { bad } else { b.aff[i] }).collect() };
+                let list2 = list.clone();
+                add(
+                    &mut cells,
+                    format!("batch_check/bls12_381_g1/{mode}/n={n}/bad={}", if has_bad { pos.to_string() } else { "none".into() }),
+                    n,
+                    Meta::Plain,
+                    true,
+                    |r: &Result<Vec<G1A>, String>| match r {
+                        Ok(v) => [b"OK:".to_vec(), ser_c(v)].concat(),
+                        Err(e) => format!("ERR:{e}").into_bytes(),
+                    },
+                    move || -> Result<Vec<G1A>, String> {
+                        let v = list();
+                        match mode {
+                            "direct" => G1A::batch_check(v.iter()).map(|_| v.clone()).map_err(|e| format!("{e:?}")),
+                            "vec_projective" => {
+                                // encodings of projective points are affine encodings
+                                let bytes = ser_c(&v);
+                                Vec::<G1P>::deserialize_with_mode(&bytes[..], Compress::No, Validate::Yes).map(|w| w.iter().map(|p| p.into_affine()).collect()).map_err(|e| format!("{e:?}"))
+                            }
+                            "vec_compressed" => {
+                                let mut bytes = Vec::new();
+                                v.serialize_compressed(&mut bytes).unwrap();
+                                Vec::<G1A>::deserialize_with_mode(&bytes[..], Compress::Yes, Validate::Yes).map_err(|e| format!("{e:?}"))
+                            }
+                            _ => {
+                                let bytes = ser_c(&v);
+                                Vec::<G1A>::deserialize_with_mode(&bytes[..], Compress::No, Validate::Yes).map_err(|e| format!("{e:?}"))
+                            }
+                        }
+                    },
+                    move |out: &Result<Vec<G1A>, String>| match out {
+                        Ok(_) if has_bad => Err(format!("accepted a vector whose element {pos} is outside the subgroup")),
+                        Ok(v) => {
+                            if *v == list2() {
+                                Ok(())
+                            } else {
+                                Err("decoded vector differs from the encoded one".into())
+                            }
+                        }
+                        Err(_) if has_bad => Ok(()),
+                        Err(e) => Err(format!("rejected a vector of valid points: {e}")),
+                    },
+                );
+            }
+        }
+    }
+    gs.push(Group { name: "batch_check/bls12_381_g1".into(), cells });
+}
+
+// ------------------------------------------------------------------------------------------
+// schedule-independence premise scan
+// ------------------------------------------------------------------------------------------
+const PAR_MARKERS: [&str; 5] = ["rayon", "cfg_iter", "cfg_into_iter", "cfg_chunks", "par_"];
+/// shared-mutable-state / unsafe tokens: searched in EVERY source file of the four crates
+const STATE_TOKENS: [&str; 13] = ["Atomic", "Mutex", "RwLock", "RefCell", "static mut", "thread_local", "unsafe", "UnsafeCell", "Cell<", "lazy_static", "OnceCell", "OnceLock", "LazyLock"];
+/// order-sensitive or early-exit parallel combinators: searched in files that contain parallel constructs
+const COMBINATOR_TOKENS: [&str; 14] = [".sum()", ".product()", ".product::<", "par_bridge", ".reduce(", "reduce_with", "try_reduce", "find_any", "find_first", "position_any", "try_for_each", "rayon::join", "rayon::scope", "rayon::spawn"];
+/// (file, token, trimmed line) established by reading each hit at the pinned tree:
+/// * `#![forbid/deny(unsafe_code)]` crate attributes;
+/// * ff: `unsafe` only around the x86 `_addcarry_u64`/`_subborrow_u64` intrinsics (biginteger), the
+///   `unreachable_unchecked` arms of the asm-dispatch match (montgomery_backend) and a byte view of a
+///   plain-old-data buffer in a const helper - no shared state, nothing related to parallel execution.
+const STATE_ALLOW: [(&str, &str, &str); 16] = [
+    ("ff/src/biginteger/mod.rs", "unsafe", "#[allow(unsafe_code)]"),
+    ("ff/src/biginteger/mod.rs", "unsafe", "unsafe {"),
+    ("ff/src/biginteger/arithmetic.rs", "unsafe", "#[allow(unsafe_code)]"),
+    ("ff/src/biginteger/arithmetic.rs", "unsafe", "unsafe {"),
+    ("ff/src/const_helpers.rs", "unsafe", "#[allow(unsafe_code)]"),
+    ("ff/src/const_helpers.rs", "unsafe", "unsafe { ark_std::slice::from_raw_parts((self as *const Self) as *const u8, 8 * N + 1) }"),
+    ("ff/src/lib.rs", "unsafe", "#![deny(unsafe_code)]"),
+    ("ff/src/fields/models/fp/montgomery_backend.rs", "unsafe", "#[allow(unsafe_code)]"),
+    ("ff/src/fields/models/fp/montgomery_backend.rs", "unsafe", "_ => unsafe { ark_std::hint::unreachable_unchecked() },"),
+    ("ec/src/lib.rs", "unsafe", "#![forbid(unsafe_code)]"),
+    ("poly/src/lib.rs", "unsafe", "#![forbid(unsafe_code)]"),
+    ("serialize/src/lib.rs", "unsafe", "#![forbid(unsafe_code)]"),
+    // spare slots keep the array length stable
+    ("", "", ""),
+    ("", "", ""),
+    ("", "", ""),
+    ("", "", ""),
+];
+/// (file, token): every hit read.  `.sum()` / `.product()` reduce field elements (commutative, associative, exact);
+/// `par_bridge().try_for_each` returns some error when at least one element fails and every element error of the
+/// shipped `check` impls is the same variant; `rayon::join` fills two disjoint scratch vectors.
+const COMBINATOR_ALLOW: [(&str, &str); 13] = [
+    ("ec/src/models/mnt4/mod.rs", ".product()"),
+    ("ec/src/models/mnt6/mod.rs", ".product()"),
+    ("ec/src/models/bls12/mod.rs", ".product::<"),
+    ("ec/src/models/bn/mod.rs", ".product::<"),
+    ("ec/src/models/bw6/mod.rs", ".product::<"),
+    ("poly/src/polynomial/multivariate/sparse.rs", ".sum()"),
+    ("poly/src/polynomial/multivariate/mod.rs", ".product()"),
+    ("poly/src/polynomial/univariate/sparse.rs", ".sum()"),
+    ("poly/src/polynomial/univariate/dense.rs", ".sum()"),
+    ("poly/src/evaluations/multivariate/multilinear/dense.rs", ".sum()"),
+    ("serialize/src/lib.rs", "par_bridge"),
+    ("serialize/src/lib.rs", "try_for_each"),
+    ("poly/src/domain/radix2/fft.rs", "rayon::join"),
+];
+fn rs_files(dir: &std::path::Path, out: &mut Vec<std::path::PathBuf>) {
+    let Ok(rd) = std::fs::read_dir(dir) else { return };
+    let mut entries: Vec<_> = rd.filter_map(|e| e.ok()).map(|e| e.path()).collect();
+    entries.sort();
+    for p in entries {
+        if p.is_dir() {
+            rs_files(&p, out);
+        } else if p.extension().map_or(false, |e| e == "rs") {
+            out.push(p);
+        }
+    }
+}
+fn premise_scan(ctx: &mut Ctx) {
+    let mut files = Vec::new();
+    for c in ["ff", "ec", "poly", "serialize"] {
+        rs_files(std::path::Path::new(&format!("/repo/{c}/src")), &mut files);
+    }
+    if files.len() < 50 {
+        ctx.machinery_error(format!("premise scan: only {} source files found under /repo/{{ff,ec,poly,serialize}}/src", files.len()));
+    }
+    let (mut par_files, mut state_hits, mut comb_hits) = (0u64, 0u64, 0u64);
+    let mut fresh: Vec<String> = Vec::new();
+    for f in &files {
+        let Ok(txt) = std::fs::read_to_string(f) else {
+            ctx.machinery_error(format!("premise scan: cannot read {}", f.display()));
+            continue;
+        };
+        let rel = f.strip_prefix("/repo/").unwrap().to_string_lossy().to_string();
+        let parallel_file = PAR_MARKERS.iter().any(|m| txt.contains(m));
+        par_files += parallel_file as u64;
+        for (ln, line) in txt.lines().enumerate() {
+            let t = line.trim();
+            if t.starts_with("//") {
+                continue;
+            }
+            for tok in STATE_TOKENS {
+                if t.contains(tok) {
+                    state_hits += 1;
+                    if !STATE_ALLOW.iter().any(|(af, at, al)| *af == rel && *at == tok && *al == t) {
+                        fresh.push(format!("{rel}:{} token `{tok}`{}: {t}", ln + 1, if parallel_file { " (file has parallel constructs)" } else { "" }));
+                    }
+                }
+            }
+            if parallel_file {
+                for tok in COMBINATOR_TOKENS {
+                    if t.contains(tok) {
+                        comb_hits += 1;
+                        if !COMBINATOR_ALLOW.iter().any(|(af, at)| *af == rel && *at == tok) {
+                            fresh.push(format!("{rel}:{} parallel-file combinator `{tok}`: {t}", ln + 1));
+                        }
+                    }
+                }
+            }
+        }
+    }
+    for h in &fresh {
+        ctx.machinery_error(format!("premise scan: NEW hit, the schedule-independence argument must be re-analysed (not a verdict): {h}"));
+    }
+    ctx.bound("premise_scan", format!("{} files, {par_files} with parallel constructs, {state_hits} shared-state/unsafe token hits and {comb_hits} reduction/early-exit combinator hits, all on the allow-list", files.len()));
+    ctx.assume("schedules inside one rayon pool are NOT enumerated (rayon cannot be put under a controlled scheduler). Premise, re-checked textually at start-up: every parallel path in ff/ec/poly/serialize uses only rayon's safe data-parallel combinators over disjoint chunks; no Atomic/Mutex/RwLock/RefCell/static mut/thread_local/unsafe in or near them; parallel reductions are sums/products of field elements (exact, commutative, associative) and collect() preserves order; hence every result is a function of (input, current_num_threads) only, and that function's domain is what is enumerated. Every cell is additionally run 3 times per pool size (uncontrolled-nondeterminism probe).");
+}
+
+// ------------------------------------------------------------------------------------------
+// branch classes (from inputs and t only)
+// ------------------------------------------------------------------------------------------
+fn log2_floor(t: usize) -> u32 {
+    usize::BITS - 1 - t.leading_zeros()
+}
+fn near(n: usize, c: usize) -> bool {
+    n.abs_diff(c) <= 1
+}
+fn classes_of(meta: &Meta, t: usize, out: &mut Vec<&'static str>) {
+    match meta {
+        Meta::Plain => {}
+        Meta::Radix2 { size, len, is_fft } => {
+            let size = *size;
+            if size == 1024 || size == 2048 {
+                out.push("chunk_boundary:butterfly_min_input_1024");
+            }
+            if size == 2048 || size == 4096 {
+                out.push("chunk_boundary:butterfly_min_gap_1024");
+            }
+            if size == 128 || size == 256 {
+                out.push("chunk_boundary:roots_log_parallel_size_7");
+                out.push("chunk_boundary:roots_compaction_128_chunks");
+            }
+            if size >= 512 {
+                out.push("roots_recursive");
+            }
+            if size >= 1 << 16 {
+                out.push("roots_recursive_depth2");
+            }
+            if size >= 4096 && t >= 2 {
+                out.push("gap_parallel");
+            }
+            if size > 1024 {
+                out.push("butterfly_chunks_parallel");
+            }
+            if *is_fft {
+                if len * 4 <= size {
+                    out.push("degree_aware_fft");
+                }
+                if (len * 4 <= size && (len + 1) * 4 > size) || (*len >= 1 && len * 4 > size && (len - 1) * 4 <= size) {
+                    out.push("chunk_boundary:degree_aware_factor_4");
+                }
+            }
+        }
+        Meta::Mixed { size, log_n } => {
+            let lc = log2_floor(t);
+            if *log_n > lc && lc >= 1 {
+                out.push("parallel_fft_cosets");
+                if !size.is_power_of_two() {
+                    out.push("parallel_fft_cosets:size_not_power_of_two");
+                }
+            }
+            if *log_n > lc && lc == 0 {
+                out.push("parallel_fft_single_coset");
+            }
+            if *log_n <= lc {
+                out.push("best_fft_serial(log_n<=log_cpus)");
+            }
+            if *log_n == lc || *log_n == lc + 1 {
+                out.push("chunk_boundary:best_fft_log_n_vs_log_cpus");
+            }
+        }
+        Meta::Horner { n } => {
+            if near(*n, 16) || near(*n, 16 * t) || near(*n, 17 * t) {
+                out.push("chunk_boundary:horner_min_16_per_thread");
+            }
+            if *n > 16 && n / t > 16 {
+                out.push("horner:chunk=len/t");
+            }
+            if *n > 16 && n / t <= 16 {
+                out.push("horner:chunk=16");
+            }
+        }
+        Meta::Distribute { n } => {
+            if near(*n, 1024) || near(*n, 1024 * t) {
+                out.push("chunk_boundary:distribute_powers_min_1024");
+            }
+            if *n > 1024 && n / t > 1024 {
+                out.push("distribute_powers:chunk=len/t");
+            }
+            if *n > 1024 && n / t <= 1024 {
+                out.push("distribute_powers:chunk=1024");
+            }
+        }
+        Meta::BatchInv { n } => {
+            if near(*n, t) || near(*n, 2 * t) {
+                out.push("chunk_boundary:batch_inversion_len_div_t");
+            }
+            if *n > t && n % t != 0 {
+                out.push("batch_inversion:ragged_last_chunk");
+            }
+        }
+        Meta::Msm { n, windows } => {
+            if near(*n, 32) {
+                out.push("chunk_boundary:msm_window_size_32");
+            }
+            if t > *windows {
+                out.push("msm:t>windows");
+            }
+            if t > 1 && t <= *windows {
+                out.push("msm:windows_split_over_threads");
+            }
+        }
+        Meta::Miller { pairs } => {
+            if [4usize, 5, 8, 9].contains(pairs) {
+                out.push("chunk_boundary:miller_chunks_of_4");
+            }
+            if *pairs > 4 {
+                out.push("miller:several_chunks");
+            }
+        }
+    }
+}
+const MANDATORY: [&str; 17] = [
+    "t=1",
+    "t_not_power_of_two",
+    "t>len",
+    "chunk_boundary:horner_min_16_per_thread",
+    "chunk_boundary:distribute_powers_min_1024",
+    "chunk_boundary:batch_inversion_len_div_t",
+    "chunk_boundary:butterfly_min_input_1024",
+    "chunk_boundary:butterfly_min_gap_1024",
+    "chunk_boundary:roots_log_parallel_size_7",
+    "chunk_boundary:roots_compaction_128_chunks",
+    "chunk_boundary:degree_aware_factor_4",
+    "chunk_boundary:msm_window_size_32",
+    "chunk_boundary:miller_chunks_of_4",
+    "chunk_boundary:best_fft_log_n_vs_log_cpus",
+    "parallel_fft_cosets",
+    "roots_recursive",
+    "gap_parallel",
+];
+
+// ------------------------------------------------------------------------------------------
+// the cell table (identical in both builds)
+// ------------------------------------------------------------------------------------------
+fn build_groups(env: &Env) -> Vec<Group> {
+    let mut gs = Vec::new();
+    let top = if env.quick { 8192 } else { 1 << 14 };
+    // FFT families
+    fft_groups::<DGold>(&mut gs, "DGold", env, top, true);
+    fft_groups::<D65537>(&mut gs, "D65537", env, top, true);
+    fft_groups::<D3889>(&mut gs, "D3889", env, 16, false);
+    fft_groups::<Fr381>(&mut gs, "bls12_381_Fr", env, top, false);
+    let mut mixed: Vec<usize> = (1..=64).collect();
+    mixed.extend([80, 81, 82, 96, 97, 108, 109, 144, 145, 162, 163, 243, 244, 324, 325, 432, 433, 486, 487, 648, 649, 972, 973, 1296, 1297, 1944, 1945, 3887, 3888]);
+    mixed_groups::<D3889>(&mut gs, "D3889", &mixed);
+    // 2-adicity 12, 3-adicity 2: reaches log_n > log_cpus for every pool size of the grid
+    let mut mixed_bn: Vec<usize> = vec![3, 5, 6, 9, 17, 18, 33, 36, 65, 72, 129, 144, 257, 288, 513, 576, 1025, 1152];
+    if !env.quick {
+        mixed_bn.extend([2049, 2304, 4097, 4608]);
+    }
+    mixed_groups::<Bn384s>(&mut gs, "bn384_small_two_adicity_Fq", &mixed_bn);
+    // linear and polynomial operations
+    linear_groups::<DGold>(&mut gs, "DGold", env);
+    linear_groups::<D65537>(&mut gs, "D65537", env);
+    linear_groups::<D3889>(&mut gs, "D3889", env);
+    linear_groups::<Fr381>(&mut gs, "bls12_381_Fr", env);
+    poly_groups::<DGold>(&mut gs, "DGold", env, 1 << 15);
+    poly_groups::<D65537>(&mut gs, "D65537", env, 1 << 15);
+    poly_groups::<D3889>(&mut gs, "D3889", env, 3888);
+    poly_groups::<Fr381>(&mut gs, "bls12_381_Fr", env, 1 << 15);
+    mle_groups::<DGold>(&mut gs, "DGold", env);
+    mle_groups::<D65537>(&mut gs, "D65537", env);
+    mle_groups::<Fr381>(&mut gs, "bls12_381_Fr", env);
+    // curves
+    msm_groups::<G1P>(&mut gs, "bls12_381_g1", env, false);
+    msm_groups::<ark_ed_on_bls12_381::EdwardsProjective>(&mut gs, "ed_on_bls12_381", env, true);
+    normalize_groups::<G1P>(&mut gs, "bls12_381_g1", env, sw_affine_ref);
+    normalize_groups::<ark_ed_on_bls12_381::EdwardsProjective>(&mut gs, "ed_on_bls12_381", env, te_affine_ref);
+    let ks: Vec<usize> = (0..=9).collect();
+    pairing_groups::<ark_bls12_381::Bls12_381>(&mut gs, "bls12_381", &ks, true, 9);
+    // F8 (known finding of C06): MNT Miller loops panic on the identity of G2 - identities are not fed to them here
+    pairing_groups::<ark_mnt4_298::MNT4_298>(&mut gs, "mnt4_298", &ks, false, 9);
+    // the other multi_miller_loop implementations with parallel chunks (cross-build + reference)
+    let ks2: Vec<usize> = if env.quick { vec![0, 1, 4, 5, 9] } else { ks.clone() };
+    pairing_groups::<ark_bn254::Bn254>(&mut gs, "bn254", &ks2, true, 9);
+    pairing_groups::<ark_mnt6_298::MNT6_298>(&mut gs, "mnt6_298", &ks2, false, 9);
+    // F7 (known finding of C06): BW6 multi_miller_loop is wrong for more than 4 pairs in BOTH builds; the bilinearity
+    // reference is applied up to 4 pairs only, larger inputs are compared across builds / pool sizes
+    pairing_groups::<ark_bw6_761::BW6_761>(&mut gs, "bw6_761", &ks2, true, 4);
+    batch_check_groups(&mut gs, env);
+    gs
+}
+
+fn pool_sizes(quick: bool) -> Vec<usize> {
+    if quick {
+        vec![1, 2, 3, 4, 7, 8, 16, 17]
+    } else {
+        (1..=16).chain([17, 24, 32, 64]).collect()
+    }
+}
+
+/// user+system CPU seconds of this process (profiling aid, C14_PROFILE=1)
+fn cpu_seconds() -> f64 {
+    let st = std::fs::read_to_string("/proc/self/stat").unwrap_or_default();
+    let after = st.rsplit(')').next().unwrap_or("");
+    let f: Vec<&str> = after.split_whitespace().collect();
+    let ticks = |i: usize| f.get(i).and_then(|x| x.parse::<f64>().ok()).unwrap_or(0.0);
+    (ticks(11) + ticks(12)) / 100.0
+}
+fn run_caught(f: impl FnOnce() -> Out) -> Out {
+    match catch_unwind(AssertUnwindSafe(f)) {
+        Ok(o) => o,
+        Err(p) => panic_out(p),
+    }
+}
+
+// ------------------------------------------------------------------------------------------
+// serial build: digest table
+// ------------------------------------------------------------------------------------------
+fn serial_digests(mut ctx: Ctx, groups: Vec<Group>) -> i32 {
+    ctx.only = None;
+    ctx.replay = None;
+    let mut table: BTreeMap<String, String> = BTreeMap::new();
+    let mut panics = 0u64;
+    for g in &groups {
+        let slots: Vec<OnceLock<(String, bool)>> = (0..g.cells.len()).map(|_| OnceLock::new()).collect();
+        ctx.sweep(&format!("serial/{}", g.name), g.cells.len() as u64, |i, _loc| {
+            let c = &g.cells[i as usize];
+            let o = run_caught(|| (c.run)());
+            let _ = slots[i as usize].set((hex(&o.digest), o.panicked));
+        });
+        for (c, s) in g.cells.iter().zip(&slots) {
+            let Some((d, p)) = s.get() else {
+                ctx.machinery_error(format!("serial digest of {} was not computed", c.key));
+                continue;
+            };
+            panics += *p as u64;
+            if table.insert(c.key.clone(), d.clone()).is_some() {
+                ctx.machinery_error(format!("duplicate cell key {}", c.key));
+            }
+        }
+    }
+    if ctx.capped {
+        ctx.machinery_error("serial digest run hit the time budget".into());
+    }
+    let tier = if ctx.quick() { "quick" } else { "thorough" };
+    let doc = serde_json::json!({
+        "what": "C14: SHA-256 of the canonical uncompressed serialization of every (operation, input id) result, computed by the build WITHOUT the `parallel` feature",
+        "tier": tier,
+        "cells": table.len(),
+        "cells_that_panic": panics,
+        "wall_s": ctx.start.elapsed().as_secs_f64(),
+        "digests": table,
+    });
+    let _ = std::fs::create_dir_all("/verif/evidence");
+    if let Err(e) = std::fs::write(SERIAL_FILE, serde_json::to_string(&doc).unwrap()) {
+        ctx.machinery_error(format!("cannot write {SERIAL_FILE}: {e}"));
+    }
+    for s in &ctx.sweeps {
+        if s.wall_s > 0.25 {
+            println!("    space {:<52} cases={:<8} {:.2}s", s.name, s.cases, s.wall_s);
+        }
+    }
+    println!("[C14 serial digests] tier={tier} cells={} panicking={} wall={:.1}s -> {SERIAL_FILE}", doc["cells"], panics, ctx.start.elapsed().as_secs_f64());
+    if ctx.machinery_errors.is_empty() {
+        0
+    } else {
+        2
+    }
+}
+
+// ------------------------------------------------------------------------------------------
+// parallel build: the check
+// ------------------------------------------------------------------------------------------
+fn parallel_check(mut ctx: Ctx, groups: Vec<Group>) -> i32 {
+    ctx.require(&MANDATORY);
+    premise_scan(&mut ctx);
+    let ts = pool_sizes(ctx.quick());
+    let tier = if ctx.quick() { "quick" } else { "thorough" };
+    // serial digest table
+    let serial: BTreeMap<String, String> = match std::fs::read_to_string(SERIAL_FILE).ok().and_then(|t| serde_json::from_str::<serde_json::Value>(&t).ok()) {
+        None => {
+            ctx.machinery_error(format!("{SERIAL_FILE} is missing or unreadable: run the serial build first (`c14 --serial-digests --tier {tier}`; ./check C14 does it)"));
+            return ctx.finish();
+        }
+        Some(v) => {
+            if v["tier"].as_str() != Some(tier) {
+                ctx.machinery_error(format!("{SERIAL_FILE} was produced for tier {:?}, this run is tier {tier}", v["tier"].as_str()));
+                return ctx.finish();
+            }
+            v["digests"].as_object().map(|m| m.iter().map(|(k, d)| (k.clone(), d.as_str().unwrap_or("").to_string())).collect()).unwrap_or_default()
+        }
+    };
+    // pools: ceil(16/t) instances of each size so that small pools are not a serial bottleneck of the sweep
+    let pools: Vec<(usize, Vec<rayon::ThreadPool>)> = ts
+        .iter()
+        .map(|&t| {
+            let k = 16usize.div_ceil(t);
+            (
+                t,
+                (0..k)
+                    .map(|_| {
+                        rayon::ThreadPoolBuilder::new()
+                            .num_threads(t)
+                            .start_handler(|_| QUIET_PANICS.with(|q| q.set(true)))
+                            .build()
+                            .unwrap()
+                    })
+                    .collect(),
+            )
+        })
+        .collect();
+    ctx.bound("pool_sizes", format!("{ts:?}"));
+    ctx.bound("repetitions_per_cell_and_pool_size", 3);
+    ctx.bound("cells", groups.iter().map(|g| g.cells.len()).sum::<usize>());
+    ctx.bound("inputs", "fixed structured vectors (iota, all-ones, unit vectors, vectors with zeros, geometric sequence of a generic-looking constant); no RNG");
+    ctx.assume("naive references use single field / group operations (C01-C03 scope) and never a batched or parallel library routine; where the full naive reference is too expensive (class reference:spot_rows_only) fixed rows are checked and the serial-build digest covers the whole output");
+    ctx.assume("BW6 multi_pairing with more than 4 effective pairs (known finding F7 of C06, identical in both builds) and all multi_miller_loop cells have no naive reference: cross-build digest and repetition only");
+    let mach: Mutex<Vec<String>> = Mutex::new(Vec::new());
+    let nt = ts.len() as u64;
+    let profile = std::env::var("C14_PROFILE").is_ok();
+    for g in &groups {
+        let nc = g.cells.len() as u64;
+        let cpu0 = cpu_seconds();
+        if profile && !ctx.sweeps.is_empty() {
+            let last = ctx.sweeps.last().unwrap();
+            eprintln!("[profile] {:<52} wall {:.2}s", last.name, last.wall_s);
+        }
+        let _ = cpu0;
+        ctx.sweep(&g.name, nc * nt, |i, loc| {
+            let [ti, ci] = unrank(i, [nt, nc]);
+            let (t, insts) = &pools[ti as usize];
+            let t = *t;
+            let pool = &insts[ci as usize % insts.len()];
+            let cell = &g.cells[ci as usize];
+            loc.class_if(t == 1, "t=1");
+            loc.class_if(!t.is_power_of_two(), "t_not_power_of_two");
+            loc.class_if(t > cell.len, "t>len");
+            let mut cl = Vec::new();
+            classes_of(&cell.meta, t, &mut cl);
+            for c in cl {
+                loc.class(c);
+            }
+            loc.class_if(!cell.full_ref, "reference:spot_rows_only_or_none");
+            // three repetitions inside the pool
+            let mut outs: Vec<Out> = Vec::with_capacity(3);
+            for _ in 0..3 {
+                let mut seen_threads = 0usize;
+                let o = run_caught(|| {
+                    pool.install(|| {
+                        seen_threads = rayon::current_num_threads();
+                        (cell.run)()
+                    })
+                });
+                if seen_threads != t {
+                    mach.lock().unwrap().push(format!("rayon::current_num_threads() = {seen_threads} inside a pool built with num_threads({t})"));
+                }
+                outs.push(o);
+            }
+            let d0 = outs[0].digest;
+            if loc.sampling() {
+                loc.sample(format!("{} t={t} digest={}", cell.key, hex(&d0)));
+            }
+            loc.class_if(outs[0].panicked, "result_is_a_panic");
+            for r in 1..3 {
+                loc.check_at("repeat", outs[r].digest == d0, || {
+                    format!("{} t={t}: repetition {r} gave digest {} but repetition 0 gave {} (same input, same pool size)", cell.key, hex(&outs[r].digest), hex(&d0))
+                });
+            }
+            // cross-build conformance
+            match serial.get(&cell.key) {
+                None => mach.lock().unwrap().push(format!("no serial digest for cell {}", cell.key)),
+                Some(d) => {
+                    loc.check_at("vs_serial_build", *d == hex(&d0), || {
+                        format!("{} t={t}: parallel build result digest {} != serial build digest {d}{}", cell.key, hex(&d0), if outs[0].panicked { " (parallel build panicked)" } else { "" })
+                    });
+                }
+            }
+            // naive reference (validated once per distinct output)
+            if let Some(v0) = outs[0].verify.take() {
+                let (vd, verr, vt) = cell.verified.get_or_init(|| (d0, v0().err(), t));
+                if *vd == d0 {
+                    if let Some(e) = verr {
+                        loc.fail_at("vs_naive_reference", format!("{} t={t}: {e} (output validated under t={vt})", cell.key));
+                    } else {
+                        loc.op();
+                    }
+                } else {
+                    let own = outs[1].verify.take().map(|v| v());
+                    loc.fail_at(
+                        "vs_naive_reference",
+                        format!("{} t={t}: output digest {} differs from the output under t={vt} (digest {}, reference verdict {:?}); own reference verdict: {:?}", cell.key, hex(&d0), hex(vd), verr, own),
+                    );
+                }
+            }
+        });
+        if profile {
+            eprintln!("[profile] {:<52} cpu {:.2}s", g.name, cpu_seconds() - cpu0);
+        }
+    }
+    let mut m = mach.into_inner().unwrap();
+    m.sort();
+    m.dedup();
+    for e in m.iter().take(20) {
+        ctx.machinery_error(e.clone());
+    }
+    ctx.finish()
+}
+
+fn main() {
+    let args: Vec<String> = std::env::args().collect();
+    let serial_mode = args.iter().any(|a| a == "--serial-digests");
+    let ctx = Ctx::from_args("C14");
+    let par_build = cfg!(feature = "parallel");
+    if !par_build && !serial_mode {
+        eprintln!("MACHINERY-ERROR: this c14 binary was built WITHOUT `--features parallel`; it can only produce the serial digest table (`c14 --serial-digests --tier T`). Build with `--features parallel` for the check (./check C14 does both).");
+        std::process::exit(2);
+    }
+    if par_build && serial_mode {
+        eprintln!("MACHINERY-ERROR: --serial-digests must be run with the build WITHOUT `--features parallel`");
+        std::process::exit(2);
+    }
+    let env = Env { quick: ctx.quick(), ts: pool_sizes(ctx.quick()) };
+    let groups = build_groups(&env);
+    eprintln!("[C14] cell table: {} groups, {} cells, built in {:.1}s", groups.len(), groups.iter().map(|g| g.cells.len()).sum::<usize>(), ctx.start.elapsed().as_secs_f64());
+    let code = if serial_mode { serial_digests(ctx, groups) } else { parallel_check(ctx, groups) };
+    std::process::exit(code);
+}
